@@ -299,6 +299,29 @@ func TestC16(t *testing.T) {
 		if fmt.Sprint([]uint32(got)) != fmt.Sprint([]uint32(want)) {
 			run.Violation(c, "spread/generators-disagree", fmt.Sprintf("generator of instance %d zone %d yields other tokens than the generator of instance %d attributes to it", e.k, e.z, maxN), map[string]any{"instance": e.k, "zone": e.z, "own_first": got[:min(5, len(got))], "table_first": want[:min(5, len(want))]})
 		}
+		// what a generator returns belongs to the caller (lifecyclers sort, append to and truncate such lists): the
+		// harness overwrites the returned list; later calls on the same generator object must not be affected
+		scribble := func(l ring.Tokens) {
+			for i := range l {
+				l[i] = uint32(7*i + 3)
+			}
+			if cap(l) > len(l) {
+				l = l[:cap(l)]
+				l[len(l)-1] = 1
+			}
+		}
+		scribble(got)
+		if again := g.GenerateTokens(512, nil); fmt.Sprint([]uint32(again)) != fmt.Sprint([]uint32(want)) {
+			run.Violation(c, "spread/not-pure-function/caller-owned-result-aliased", fmt.Sprintf("after the caller overwrote the list a first call returned, a second call on the same generator (instance %d zone %d) yields other tokens", e.k, e.z), map[string]any{"instance": e.k, "zone": e.z, "second_first": again[:min(5, len(again))], "table_first": want[:min(5, len(want))]})
+		}
+		if few := g.GenerateTokens(3, nil); len(want) >= 3 {
+			ok := fmt.Sprint([]uint32(few)) == fmt.Sprint([]uint32(want[:3]))
+			few = append(few, 1, 2, 3) // grows into whatever lies behind the three tokens
+			scribble(few)
+			if again := g.GenerateTokens(512, nil); !ok || fmt.Sprint([]uint32(again)) != fmt.Sprint([]uint32(want)) {
+				run.Violation(c, "spread/not-pure-function/caller-owned-result-aliased", fmt.Sprintf("a short request followed by appends of the caller changed what the generator (instance %d zone %d) yields", e.k, e.z), map[string]any{"instance": e.k, "zone": e.z})
+			}
+		}
 		// via the public constructor with names
 		zones := []string{"a", "b", "c", "d", "e", "f", "g", "h"}
 		// the configured zone list in any order: the zone index is the position in the *sorted* list
@@ -356,6 +379,7 @@ func TestC16(t *testing.T) {
 			if fmt.Sprint([]uint32(out)) != fmt.Sprint(expect) && len(out) > 0 {
 				run.Violation(c, "spread/not-pure-function", "tokens returned under a taken set are not the instance's own tokens minus the taken ones", map[string]any{"instance": e.k, "zone": e.z, "requested": req})
 			}
+			scribble(out)
 		}
 		if c.Idx == 50 {
 			run.Sample(map[string]any{"generator": "spread-minimizing", "instance": e.k, "zone": e.z, "first_tokens": want[:5]})
